@@ -104,6 +104,15 @@ def run(ctx):
                 las.append_curve("INTS", np.arange(rows, dtype=r2.choice([np.int64, np.int32, np.float32])))
             if r2.random() < 0.3:
                 las["FLAGS"] = np.array([bool(k % 2) for k in range(rows)])
+            if r2.random() < 0.4:       # object-dtype arrays (what set_data / a mixed DataFrame leaves behind)
+                las.append_curve("OBJ", np.array([k + 0.5 for k in range(rows)], dtype=object))
+            if r2.random() < 0.3:
+                las.append_curve("CODE", np.array(["00%d" % (12 + k) for k in range(rows)], dtype=object))
+            if r2.random() < 0.5:       # ... and arrays assigned to an existing curve after its construction
+                las.append_curve("LATE", np.zeros(rows))
+                las.curves[-1].data = np.array(["00%d" % (12 + k) for k in range(rows)], dtype=object) if r2.random() < 0.5 \
+                    else np.array([k + 0.25 for k in range(rows)], dtype=object)
+                las.update_curve(mnemonic="LATE", unit="late")
             return las, None
         how = rng.choice(copying.HOWS)
         add(lambda b=build: (b()[0], lambda las: las), how, "las", ["field", "array", "append"], {"generated": i})
